@@ -386,6 +386,18 @@ type rsBroker struct {
 	// no longer knows a live connection, the history is not a history of the persistence path and
 	// the engines skip it
 	raceHit bool
+	stuck   bool // settle gave up
+}
+
+// skipped histories: a few are tolerated (the C14-1 race), many would hide a hang of the broker
+var rsSkipped, rsPlayed int
+
+func skipHistory(out *sx.Out, what string) {
+	rsSkipped++
+	out.Comment(what)
+	if rsSkipped > 5 && rsSkipped*10 > rsPlayed {
+		panic("storage broker harness: too many abandoned histories: " + what)
+	}
 }
 
 const rsListener = "t"
@@ -422,9 +434,19 @@ func (c *rsClient) finished() bool {
 // settle waits until every connection handler is parked in Read with nothing left to read (or has
 // returned) and no packet is queued or being written.
 func (b *rsBroker) settle() {
+	if b.stuck {
+		return
+	}
 	ok := 0
 	for i := 0; i < 200000; i++ {
-		q := b.srv.VerifQuiescent()
+		// nothing queued or being written for any open client (a stopped client's queue is never
+		// drained: its write loop has ended)
+		q := true
+		for _, cl := range b.srv.Clients.GetAll() {
+			if !cl.Closed() && !cl.VerifClientQuiescent() {
+				q = false
+			}
+		}
 		for _, c := range b.clients {
 			if !(c.finished() || c.conn.parked()) {
 				q = false
@@ -446,7 +468,9 @@ func (b *rsBroker) settle() {
 			time.Sleep(20 * time.Microsecond)
 		}
 	}
-	panic("storage broker harness: no quiescence")
+	// the broker did not come to rest: the history is abandoned (and counted, see skipHistory)
+	b.raceHit = true
+	b.stuck = true
 }
 
 func encode(pk packets.Packet) []byte {
